@@ -109,11 +109,17 @@ Definition field_text (fd : ffield) (f : file) : str :=
   | _ => []   (* not supported by the target: excluded by the theorems *)
   end.
 
+(** the character an octal escape stands for: a code in the surrogate range 0xD800..0xDFFF is
+    not a character (find has no behaviour for it; the parser yields at most 0o777 = 511), and
+    the library prints '0' (48) for it.  Restated here; Proofs/TransFormat.v shows that it is
+    the function of the same name in Model/Compile.v. *)
+Definition scalar_or_zero (v : N) : N := if (55296 <=? v) && (v <=? 57343) then 48 else v.
+
 Definition special_text (x : fspecial) : str :=
   match x with
   | XAlarm => [7] | XBackspace => [8] | XForm => [12] | XNewline => [10] | XCarriageReturn => [13]
   | XTabHorizontal => [9] | XTabVertical => [11] | XNull => [0] | XBackslash => [92]
-  | XAscii n => [n]
+  | XAscii n => [scalar_or_zero n]
   | XClear => []   (* not supported by the target *)
   end.
 
